@@ -1,1 +1,26 @@
-fn main() {}
+//! mc-lang — checks of the language front end: C12 (grammar), C13 (printer round trip),
+//! C14 (robustness, text half). Invoked as `mc-lang <Cxx> quick|thorough|--replay <file>`.
+mod c12;
+mod c13;
+mod c14;
+mod corpus;
+mod grammar;
+mod real;
+mod reference;
+
+fn main() {
+    let args: Vec<String> = std::env::args().skip(1).collect();
+    let Some(prop) = args.first().cloned() else {
+        mc_core::machinery_error("usage: mc-lang <Cxx> quick|thorough|--replay <file>");
+    };
+    mc_core::quiet_panics();
+    let rest = &args[1..];
+    match prop.as_str() {
+        "C12" => c12::run(rest),
+        "C13" => c13::run(rest),
+        "C14" => c14::run(rest),
+        // hidden: supervised worker of C14's nesting families
+        "__c14-worker" => c14::worker(rest),
+        _ => mc_core::machinery_error(&format!("mc-lang does not serve {prop}")),
+    }
+}
